@@ -247,43 +247,44 @@ func (s *tscenario) body(env *tenv) (string, string, string) {
 		w := &kafka.Writer{Addr: taddr, Topic: ttopic, Transport: env.tr, Balancer: &kafka.RoundRobin{}, BatchTimeout: time.Millisecond,
 			BatchSize: 1, MaxAttempts: 4, WriteBackoffMin: time.Millisecond, WriteBackoffMax: 5 * time.Millisecond, RequiredAcks: kafka.RequireAll}
 		before := len(env.b.Log())
-		vals := []string{"w1", "w2", "w3", "w4", "w5", "w6"}
-		i := 0
+		var okVals []string // values whose WriteMessages call returned nil, in submission order
+		nsub := 0
 		write := func() error {
 			ctx, cancel := ctx3()
 			defer cancel()
-			v := vals[i]
-			i++
-			return w.WriteMessages(ctx, kafka.Message{Value: []byte(v)})
+			nsub++
+			v := fmt.Sprintf("w%d", nsub)
+			err := w.WriteMessages(ctx, kafka.Message{Value: []byte(v)})
+			if err == nil {
+				okVals = append(okVals, v)
+			}
+			return err
 		}
-		// the Writer retries internally: the call that hits the cut must SUCCEED over a new connection
+		// the Writer retries internally: the call that hits a cut PRODUCE response must succeed over a new connection;
+		// a cut of the Transport's initial metadata exchange is surfaced until the Transport refreshes (≤ MetadataTTL):
+		// the follow-up submissions are retried for a while
 		first := guard(4*time.Second, write)
 		time.Sleep(2 * time.Millisecond)
 		next := "ok"
 		for j := 0; j < 2 && next == "ok"; j++ {
-			next = guard(4*time.Second, write)
-			if next == "err" && first == "err" && i < len(vals) {
-				// the Transport was still holding the failed initial metadata state: allow one more submission
-				time.Sleep(60 * time.Millisecond)
-				next = guard(4*time.Second, write)
-			}
+			next = retry(3*time.Second, write)
 		}
 		go w.Close()
 		data := "intact"
 		log := env.b.Log()[before:]
 		pos := 0
-		for _, v := range vals[:i] { // each value once or twice (retry), in submission order
+		for _, v := range okVals { // every acknowledged value once or twice (retry after a lost ack), in submission order
+			for pos < len(log) && log[pos].Value != v { // values of failed submissions may or may not have been applied
+				pos++
+			}
 			c := 0
 			for pos < len(log) && log[pos].Value == v {
 				pos++
 				c++
 			}
-			if first == "ok" && next == "ok" && (c < 1 || c > 2) {
+			if c < 1 || c > 2 {
 				data = fmt.Sprintf("value-%s-x%d", v, c)
 			}
-		}
-		if first == "ok" && next == "ok" && pos != len(log) {
-			data = "unexpected-log-order"
 		}
 		if strings.HasSuffix(s.name, "/metadata") && first != "hang" {
 			first = "returned" // depends on when the Transport refreshes its failed initial metadata: ok or err
